@@ -288,11 +288,16 @@ func c16ScenarioWatchdog(r *sim.Run) {
 	sS := newC16Stream(r, "server", hbp)
 	sC := newC16Stream(r, "client", hbp)
 
-	// the link (FIFO, per-message delay)
+	// the link (per-message delay; FIFO among heartbeats and FIFO among data messages). Heartbeats and
+	// data are written by different goroutines, possibly at the same simulated instant: the delay
+	// of a message depends only on its own kind and sequence number, never on which writer got to
+	// the link first, and data arrivals are shifted by half a microsecond so that they never tie
+	// with a heartbeat arrival (every other quantity is a whole number of microseconds).
 	var lmu sync.Mutex
-	var lastDeliver time.Time
+	var lastDeliverK [2]time.Time
+	var nsentK [2]int
 	var lastHBArrival time.Duration = -1
-	nsent, nHBdelivered, nHBlost := 0, 0, 0
+	nHBdelivered, nHBlost := 0, 0
 	type arrival struct {
 		at time.Duration
 		n  int
@@ -301,8 +306,13 @@ func c16ScenarioWatchdog(r *sim.Run) {
 	start := time.Now()
 	forward := func(b []byte, hb bool, off time.Duration) {
 		lmu.Lock()
-		k := nsent
-		nsent++
+		kind := 0
+		if !hb {
+			kind = 1
+			off += 500 * time.Nanosecond
+		}
+		k := nsentK[kind] + 3*kind
+		nsentK[kind]++
 		now := time.Now()
 		el := now.Sub(start)
 		if loss != 0 && el >= cutAfter && (hb || loss == 2) {
@@ -313,10 +323,10 @@ func c16ScenarioWatchdog(r *sim.Run) {
 			return
 		}
 		at := now.Add(jit[k%len(jit)] + off)
-		if !at.After(lastDeliver) {
-			at = lastDeliver.Add(time.Microsecond)
+		if !at.After(lastDeliverK[kind]) {
+			at = lastDeliverK[kind].Add(time.Microsecond)
 		}
-		lastDeliver = at
+		lastDeliverK[kind] = at
 		lmu.Unlock()
 		time.AfterFunc(at.Sub(now), func() {
 			lmu.Lock()
